@@ -161,9 +161,9 @@ func buildAPIBM(c *apibmCase) (nextroute.Model, error) {
 }
 
 func runAPIBM(o *Out, rng *rand.Rand, thorough bool) {
-	n := 250
+	n := 3000
 	if thorough {
-		n = 3000
+		n = 40000
 	}
 	if replayFile != "" {
 		n = 1
